@@ -1038,7 +1038,7 @@ template <size_t W>
 void TableauSimulator<W>::do_HERALDED_ERASE(const CircuitInstruction &inst) {
     auto nt = inst.targets.size();
     size_t offset = measurement_record.storage.size();
-    measurement_record.storage.insert(measurement_record.storage.end(), nt, false);
+    measurement_record.record_results(std::vector<bool>(nt, false));
 
     uint64_t rng_buf = 0;
     size_t buf_size = 0;
@@ -1060,7 +1060,7 @@ template <size_t W>
 void TableauSimulator<W>::do_HERALDED_PAULI_CHANNEL_1(const CircuitInstruction &inst) {
     auto nt = inst.targets.size();
     size_t offset = measurement_record.storage.size();
-    measurement_record.storage.insert(measurement_record.storage.end(), nt, false);
+    measurement_record.record_results(std::vector<bool>(nt, false));
 
     double hi = inst.args[0];
     double hx = inst.args[1];
